@@ -2,6 +2,7 @@ import HapModel.Drv.Util
 import HapModel.Advert
 import HapModel.AdvertSys
 import HapModel.AdvertLife
+import Proofs.Advert   -- core only: the specification-side decoders / validity predicates
 namespace Hap.Drv.Advert
 open Lean Hap Hap.Drv Hap.Advert Hap.AdvertSys
 
@@ -121,9 +122,10 @@ def jobs (o : Obs) : Json :=
     Json.arr #["publish", jopt (fun (n : Nat) => Json.num n) r, jtxt txt]
 
 def infoOf (j : Json) : R Info := do
+  let mac := (← getStr j "mac").toList
   pure { display := ← getChars j "name", category := ← getNat j "category",
-         mac := (← getStr j "mac").toList, cfg := ← getNat j "cfg",
-         paired := ← getBool j "paired", setupHash := ← getStr j "sh" }
+         mac := mac, cfg := ← getNat j "cfg",
+         paired := ← getBool j "paired", setupHash := setupHash (← getStr j "setup_id").toList mac }
 
 def handle (j : Json) : R Json := do
   let op ← getStr j "op"
@@ -168,9 +170,10 @@ def handle (j : Json) : R Json := do
       | _ => throw "paired entry must be [client, admin]"
     let steps ← (← getArr j "steps").toList.mapM stepOf
     -- the accessory the script runs on (name, category, mac, configuration number at start, setup hash)
+    let mac := (← getStr j "mac").toList
     let info : Info := { display := ← getChars j "name", category := ← getNat j "category",
-                         mac := (← getStr j "mac").toList, cfg := ← getNat j "cfg", paired := false,
-                         setupHash := ← getStr j "sh" }
+                         mac := mac, cfg := ← getNat j "cfg", paired := false,
+                         setupHash := setupHash (← getStr j "setup_id").toList mac }
     -- verified controller per connection: [[conn, client], ...]
     let sessions ← (← getArr j "sessions").toList.mapM fun e => do
       match e with
@@ -195,6 +198,26 @@ def handle (j : Json) : R Json := do
       | .ok (.num n) => { Hap.AdvertLife.life0 with disk := some { cfg := n.mantissa.toNat, hsh := none } }
       | _ => Hap.AdvertLife.life0
     pure (Json.mkObj [("ok", Json.arr (lifeRun l0 ops).toArray)])
+  | "spec" =>
+    -- the specification-side definitions the theorems are stated with (Proofs/Advert.lean), run
+    -- on concrete labels / URIs so that they can be compared with the independent Python
+    -- validators (harness/ref/dnslabel.py, harness/ref/xhm.py)
+    let inst ← getChars j "inst"
+    let host ← getChars j "host"
+    let uri := (← getStr j "uri").toList
+    let d := match xhmDecode uri with
+      | some f => Json.mkObj [("version", Json.num f.version), ("reserved", Json.num f.reserved),
+                              ("category", Json.num f.category), ("flags", Json.num f.flags),
+                              ("code", Json.num f.code), ("setup_id", jstr f.setupId)]
+      | none => Json.null
+    pure (Json.mkObj [("inst_ok", Json.bool (decide (ValidInstanceLabel inst))),
+                      ("host_ok", Json.bool (decide (ValidHostLabel host))), ("xhm", d)])
+  | "ident" =>
+    -- the hypotheses of C18_names_valid_mac_tail / C18_xhm_pin_roundtrip on a generated identity
+    let mac := (← getStr j "mac").toList
+    let pin := (← getStr j "pin").toList
+    pure (Json.mkObj [("mac_ok", Json.bool (decide (MacTailOk mac))),
+                      ("pin_ok", Json.bool (decide (PinShape pin))), ("code", Json.num (pinValue pin))])
   | "consts" =>
     -- the constants the model fixes, for comparison with the ones in the source
     pure (Json.mkObj [("MAX_CONFIG_VERSION", Json.num MAX_CONFIG_VERSION),
